@@ -26,10 +26,27 @@ ASSUMPTIONS = [
 N_LAW = 20000
 
 
+def _typed(v, ptype):
+    """The same parameter value in the numeric type the caller happens to hold it in."""
+    if ptype == "np_float64":
+        return np.float64(v)
+    if ptype == "np_float32" and float(np.float32(v)) == float(v):
+        return np.float32(v)
+    if ptype == "zero_d":
+        return np.array(float(v))
+    if ptype in ("int8", "int16", "int32", "int64") and float(v) == int(v):
+        info = np.iinfo(ptype)
+        if info.min <= int(v) <= info.max:
+            return np.dtype(ptype).type(int(v))
+    if ptype == "py_int" and float(v) == int(v):
+        return int(v)
+    return v
+
+
 def _factory(case):
     import sempler.noise as noise
     k = case["factory"]
-    a = case.get("args", {})
+    a = {kk: _typed(v, case.get("ptype", "plain")) for kk, v in case.get("args", {}).items()}
     if k == "normal":
         return noise.normal(**{x: a[x] for x in ("mean", "var") if x in a}) if not case.get("positional") else noise.normal(a["mean"], a["var"])
     if k == "uniform":
@@ -71,7 +88,7 @@ def check(case):
         raise Violation("bad_shape", "returned shape %r, expected (%d,); %s" % (x.shape, n, ctx))
     if n and k != "zero" and not np.issubdtype(x.dtype, np.floating):
         raise Violation("bad_dtype", "returned dtype %s; %s" % (x.dtype, ctx))
-    lab = ["fac_" + k, "n_%d" % n]
+    lab = ["fac_" + k, "n_%d" % n, "ptype_" + case.get("ptype", "plain")]
     # reproducibility through numpy's global generator, same callable object
     first = x.copy()
     if x.size and x.flags.writeable:
@@ -143,13 +160,18 @@ def noise_case(draw):
     k = draw(st.sampled_from(["normal", "normal", "normal", "uniform", "uniform", "laplace", "laplace", "zero"]))
     case = {"sub": "noise", "factory": k, "positional": draw(st.booleans()),
             "n": draw(st.sampled_from([N_LAW, N_LAW, N_LAW, 0, 1, 5])),
-            "seed": draw(st.sampled_from([0, 1]) | st.integers(0, 2 ** 32 - 1)), "burn": draw(st.integers(1, 7))}
+            "seed": draw(st.sampled_from([0, 1]) | st.integers(0, 2 ** 32 - 1)), "burn": draw(st.integers(1, 7)),
+            "ptype": draw(st.sampled_from(["plain", "plain", "plain", "np_float64", "np_float32", "zero_d", "int8", "int16", "int32", "int64", "py_int"]))}
     if k == "normal":
         var = draw(st.sampled_from([2.0 ** -40, 1e-9, 1e-6, 0.01, 0.0625, 0.25, 0.5, 0.8, 1, 1.25, 2, 4, 9, 25, 100, 1e6]))
         case["args"] = {"mean": draw(_dy(-64, 64)), "var": var}
     elif k == "uniform":
         lo = draw(_dy(-64, 64))
         w = draw(st.sampled_from([2.0 ** -20, 0.125, 0.5, 1, 1, 2, 3, 10, 100, 4096]))
+        if case["ptype"] in ("int8", "int16", "int32", "int64", "py_int"):
+            # integer bounds whose difference does not fit the (small) integer type they are held in
+            lo = draw(st.sampled_from([-100, -120, -30000, -64, 3]))
+            w = draw(st.sampled_from([200, 220, 60000, 100, 7]))
         case["args"] = {"lo": lo, "hi": lo + w}
     elif k == "laplace":
         case["args"] = {"mean": draw(_dy(-64, 64)), "scale": draw(st.sampled_from([2.0 ** -30, 1e-6, 0.05, 0.25, 0.5, 1, 2, 2.5, 7, 30, 1e5]))}
